@@ -302,6 +302,8 @@ func describePanic(r interface{}) string {
 		return "abort: " + r.why
 	case budgetExceeded:
 		return "budget"
+	case targetFatal:
+		return "panic: fatal error: " + string(r)
 	}
 	return fmt.Sprintf("enginebug: unexpected panic %T %v", r, r)
 }
@@ -339,6 +341,7 @@ func (wk *worker) onePath(fn *ssa.Function, prefix []decision) {
 	i.replaced = nil
 	i.pools = nil
 	i.panicStack = nil
+	i.fmtDepth = 0
 	i.callStack = i.callStack[:0]
 	for k := range i.funcsHit {
 		delete(i.funcsHit, k)
